@@ -24,7 +24,7 @@ pub fn def() -> CheckDef {
         runs_quick: 250_000,
         runs_thorough: 5_000_000,
         rule: "seeded interleavings: history h1 on an instance, clone at a seeded point (mid-block for byte-level types), then operations on original and clone interleaved operation by operation by the scheduler; or two unrelated instances (different key/IV) interleaved; compared with sequential replays on fresh instances. All cloneable public types (12 block-mode types, 7 byte-stream aliases and cores, BufEncryptor/BufDecryptor); BeltCtr/BeltCtrCore (not Clone) only as unrelated instances. distinct = distinct (type, block size, cipher, width, clone point, interleaving pattern, op forms); non-trivial = >= 1 data op on each actor after the clone",
-        required_probes: &["clone_mid_block", "ctr_core_clone", "three_alternations", "unrelated_instances", "buf_clone", "belt_unrelated", "cts_clone", "second_clone"],
+        required_probes: &["clone_mid_block", "ctr_core_clone", "three_alternations", "unrelated_instances", "buf_clone", "belt_unrelated", "cts_clone", "second_clone", "clone_from"],
         r#gen,
         exec,
         components: "real code: all stateful public types of the nine crates incl. their Clone impls (CtrCore's is hand-written); stub: block cipher in most runs, real ciphers in the rest; scheduler: the op list itself (call-granular interleaving is the whole space: every mutating method takes &mut self and the crates forbid unsafe); no reference model",
@@ -74,13 +74,13 @@ fn r#gen(rng: &mut Rng, thorough: bool) -> Scn {
         s.ops.push(o);
     }
     if !unrelated {
-        s.ops.push(Op::new("clone"));
+        s.ops.push(Op::new(if rng.chance(1, 4) { "clonefrom" } else { "clone" }).m(rng.below(2)));
     }
     let second_clone_at = if !unrelated && rng.chance(1, 3) { Some(rng.usize(n2)) } else { None };
     for j in 0..n2 {
         if Some(j) == second_clone_at {
             // a clone of the original or of the first clone
-            s.ops.push(Op::new("clone").who(rng.below(2) as u8));
+            s.ops.push(Op::new(if rng.chance(1, 4) { "clonefrom" } else { "clone" }).who(rng.below(2) as u8).m(rng.below(2)));
         }
         let o = extra(rng, &s).who(rng.below(6) as u8);
         s.ops.push(o);
@@ -116,7 +116,7 @@ fn exec(scn: &Scn, ctx: &mut Ctx) -> Verdict {
             Inst::make(fam, &scn.mode, bs, scn.cipher, &scn.key, &scn.iv, tag, 0)
         }
     };
-    let nclones = scn.ops.iter().filter(|o| o.k == "clone").count();
+    let nclones = scn.ops.iter().filter(|o| o.k == "clone" || o.k == "clonefrom").count();
     if (unrelated && nclones != 0) || (!unrelated && nclones == 0) || nclones > 2 {
         invalid!("clone ops and unrelated flag disagree");
     }
@@ -142,15 +142,29 @@ fn exec(scn: &Scn, ctx: &mut Ctx) -> Verdict {
     let mut last_who = 99usize;
     let mut data_after = vec![0u32; 4];
     for (i, op) in scn.ops.iter().enumerate() {
-        if op.k == "clone" {
+        if op.k == "clone" || op.k == "clonefrom" {
             let src = op.who as usize % actors.len();
             ctx.probe_if(matches!(actors[src], Inst::S(_) | Inst::F(_)) && bytes_done[src] % bs != 0, "clone_mid_block");
             ctx.probe_if(fam == FAM_CORE && scn.mode.starts_with("ctr"), "ctr_core_clone");
             ctx.probe_if(fam == FAM_BUF, "buf_clone");
             ctx.probe_if(actors.len() >= 2, "second_clone");
-            let c = match actors[src].dup() {
-                Some(c) => c,
-                None => invalid!("type is not Clone"),
+            let c = if op.k == "clonefrom" {
+                // target: an instance with *different internals* that serialises alike (imported
+                // from the source's exported state) or, failing that, a fresh one; then clone_from
+                let mut t = match actors[src].export().and_then(|e| Inst::import(fam, &scn.mode, bs, scn.cipher, if second[src] { &key2 } else { &scn.key }, &e, 3).ok()) {
+                    Some(t) if op.m % 2 == 0 => t,
+                    _ => mk(3, second[src]).unwrap(),
+                };
+                if !t.assign_from(&actors[src]) {
+                    invalid!("type is not Clone");
+                }
+                ctx.probe("clone_from");
+                t
+            } else {
+                match actors[src].dup() {
+                    Some(c) => c,
+                    None => invalid!("type is not Clone"),
+                }
             };
             bytes_done[actors.len()] = bytes_done[src];
             actors.push(c);
